@@ -236,6 +236,38 @@ def run(ctx):
             if r.startswith("ok"):
                 fails.append({"what": f"bit flip at byte {pos} of a {len(big)}-byte batch accepted", "bytes": big[:64].hex(),
                               "size": len(big), "python": r[:200]})
+    # (d3) the process environment must not matter: the same reference batches read in child processes
+    # whose local time zone is not UTC (set before kio is imported) and with assertions stripped (-O)
+    import json as _json
+    import os
+    import subprocess
+    envb = [d for l, w, d in cases if l == "ref"][:12]
+    child = ("import sys, json, io\n"
+             "sys.path.insert(0, %r)\n"
+             "from kio.records.readers import read_batch\n"
+             "from kio.records.writers import write_batch\n"
+             "out = []\n"
+             "for h in json.load(sys.stdin):\n"
+             "    try:\n"
+             "        b = read_batch(io.BytesIO(bytes.fromhex(h)))\n"
+             "        w = io.BytesIO(); write_batch(w, b)\n"
+             "        out.append([[int(r.timestamp.timestamp() * 1000) for r in b.records], w.getvalue().hex()])\n"
+             "    except Exception as e:\n"
+             "        out.append(['err', type(e).__name__])\n"
+             "print(json.dumps(out))\n") % os.path.join(common.REPO, "src")
+    def run_child(extra_env, flags=()):
+        r = subprocess.run([common.PY, *flags, "-c", child], input=_json.dumps([d.hex() for d in envb]).encode(),
+                           stdout=subprocess.PIPE, stderr=subprocess.PIPE, env={**os.environ, **extra_env}, timeout=300)
+        return r.stdout.decode().strip() or ("ERR " + r.stderr.decode()[-300:])
+    base_out = run_child({"TZ": "UTC"})
+    for label, env_, flags in (("TZ=America/New_York", {"TZ": "America/New_York"}, ()),
+                               ("TZ=IST-5:30", {"TZ": "IST-5:30"}, ()),
+                               ("python -O", {"TZ": "UTC"}, ("-O",)),
+                               ("PYTHONHASHSEED=7, TZ=Pacific/Auckland", {"TZ": "Pacific/Auckland", "PYTHONHASHSEED": "7"}, ())):
+        o = run_child(env_, flags); evals += len(envb)
+        if o != base_out:
+            fails.append({"what": f"reading (and writing back) a batch gives another result under {label} than under TZ=UTC",
+                          "bytes": envb[0].hex() if envb else "", "python": o[:600], "expected": base_out[:600]})
     # (e) CRC-colliding truncation (the case only exact reads catch)
     for _ in range(6 if not thorough else 40):
         val = bytes(rng.getrandbits(8) for _ in range(rng.choice([4, 8, 12]))) + b"\0\0\0\0"
